@@ -148,6 +148,8 @@ def f_modulo(left: Any, arg: Any) -> Any:
         return a - b * (a // b)
     if (a < 0) != (b < 0) and a != 0:
         raise Undoc("float modulo with mixed signs")
+    if isinstance(a, float) and a == 0 and math.copysign(1.0, a) < 0:
+        raise Undoc("modulo of negative zero: the sign of the zero result is not documented")
     fa, fb = M.exact(a), M.exact(b)
     if abs(fa / fb) >= 10**15:
         raise Undoc("modulo quotient too large")
@@ -215,6 +217,10 @@ def seq_of(v: Any, *, chars: bool = False, flat: bool = False, what: str = "") -
         return list(v)
     if isinstance(v, Range):
         return v.items()
+    if v is None:
+        # the docs convert "input that is not an array" to one without saying whether nil becomes []
+        # (the reference implementation) or [nil]; only an undefined variable is pinned (CTS) to []
+        raise Undoc(f"{what}: nil input")
     if is_nil(v):
         return []
     if isinstance(v, str):
@@ -622,6 +628,13 @@ def f_strip_html(s: str) -> str:
     i = 0
     while i < len(s):
         if s[i] == "<":
+            nxt = s[i + 1 : i + 3]
+            if not (nxt[:1].isascii() and nxt[:1].isalpha()) and not (
+                nxt[:1] == "/" and nxt[1:2].isascii() and nxt[1:2].isalpha()
+            ):
+                # '<0>', '< a>', '<!x>': an HTML parser does not take these for tags, the reference's
+                # regular expression does; "all HTML tags removed" does not decide
+                raise Undoc("strip_html: '<' that does not start a tag name")
             j = i + 1
             while j < len(s) and s[j] not in "<>":
                 j += 1
